@@ -252,6 +252,16 @@ class FlowObserver(object):
                 o["kind"] = self.flow.offer(o)
         elif op["op"] == "done":
             self.last = self.flow.complete(tuple(op["a"]), op["status"], op.get("result"), rec["before"])
+        elif op["op"] == "report" and op["status"] in ("pending", "paused"):
+            # trigger of known finding R21: a pending action pauses the workflow without pausing
+            # with-items tasks that still have items to offer
+            if any("items_n" in e and len(e["items_offered"]) < (e["items_n"] or 0) for e in self.flow.open.values()):
+                self.flow.events.add("pending-with-unoffered-items")
+        elif op["op"] == "req" and not rec["rejected"]:
+            if op["status"] in ("resuming", "running") and rec["before"] in ("pausing", "paused"):
+                # trigger of known finding R18: tasks paused by the workflow pause are not resumed
+                if any("items_n" in e for e in self.flow.open.values()):
+                    self.flow.events.add("resume-with-open-items")
         # the driver completes empty with-items tasks itself, inside the poll
         if op["op"] == "poll":
             for o in rec["offers"]:
